@@ -44,15 +44,25 @@ func (c05) Assumptions() []string {
 		"faults are injected at the database.Database boundary only",
 	}
 }
-func (c05) NumCases(tier string, _ int64) int {
+
+// the first c05Exh(tier) cases enumerate fault points with the replica driver; the rest is
+// the sdk family (real client.Client, random fault points)
+func c05Exh(tier string) int {
 	if tier == "thorough" {
 		return 400
 	}
 	return 36
 }
+
+func (c05) NumCases(tier string, _ int64) int {
+	if tier == "thorough" {
+		return c05Exh(tier) + 400
+	}
+	return c05Exh(tier) + 32
+}
 func (c05) Exhaustive(string) bool { return false }
 func (c05) Floors(string) []runner.Floor {
-	return []runner.Floor{{Stat: "faults_fired", Min: 500}, {Stat: "responses_lost", Min: 50}}
+	return []runner.Floor{{Stat: "faults_fired", Min: 500}, {Stat: "responses_lost", Min: 50}, {Stat: "sdk_faults_fired", Min: 100}}
 }
 
 // faultHook implements faultdb.Hook.
@@ -471,6 +481,10 @@ func (w *c05Worker) runFault(res *runner.CaseResult, h sim.History, f faultSpec,
 
 func (w *c05Worker) Run(idx int) runner.CaseResult {
 	res := runner.CaseResult{Case: fmt.Sprintf("c05-%d", idx)}
+	if idx >= c05Exh(w.tier) {
+		w.runSDK(&res, idx, nil)
+		return res
+	}
 	h := c05History(w.seed, idx)
 	calls := map[int][]string{}
 	want, _, _, problems := w.execute(h, nil, "c05d", calls)
@@ -532,6 +546,18 @@ func (w *c05Worker) Run(idx int) runner.CaseResult {
 
 func (w *c05Worker) Replay(data json.RawMessage) runner.CaseResult {
 	res := runner.CaseResult{Case: "replay"}
+	var fam struct {
+		Family string `json:"family"`
+	}
+	if json.Unmarshal(data, &fam) == nil && fam.Family == "sdk" {
+		var sr c05sdkReplay
+		if err := json.Unmarshal(data, &sr); err != nil {
+			res.Inconclusive = err.Error()
+			return res
+		}
+		w.runSDK(&res, sr.Idx, &sr)
+		return res
+	}
 	var rp c05Replay
 	if err := json.Unmarshal(data, &rp); err != nil {
 		res.Inconclusive = err.Error()
